@@ -579,6 +579,7 @@ func runC01(c *Ctx) {
 }
 
 var c01Canaries = []Canary{
+	{Name: "r7-smudge-keeps-wrong-sized-object", ExpectKey: "C01.R8#smudge:local-object-read-only-at-pointer-size", Edits: []Edit{{File: "lfs/gitfilter_smudge.go", Find: "\tstat, statErr := os.Stat(mediafile)\n\tif statErr == nil && stat != nil {\n\t\tfileSize := stat.Size()\n\t\tif fileSize != ptr.Size {\n\t\t\ttracerx.Printf(\"Removing %s, size %d is invalid\", mediafile, fileSize)\n\t\t\tos.RemoveAll(mediafile)\n\t\t\tstat = nil\n", Repl: "\tstat, statErr := os.Stat(mediafile)\n\tif statErr == nil && stat != nil {\n\t\tfileSize := stat.Size()\n\t\tif fileSize != ptr.Size && download {\n\t\t\t// Only throw the local copy away when we are allowed to\n\t\t\t// fetch a replacement for it.\n\t\t\ttracerx.Printf(\"Removing %s, size %d is invalid\", mediafile, fileSize)\n\t\t\tos.RemoveAll(mediafile)\n\t\t\tstat = nil\n"}}},
 	{Name: "r6-merge-result-opened-before-program", ExpectKey: "C01.R5#merge-driver:result-opened-after-program", Edits: []Edit{{File: "commands/command_merge_driver.go", Find: "func processFiles(fileSpecifiers map[string]string, program string, outputFile string) (int, error) {\n\tdefer mergeCleanup(fileSpecifiers)\n\n\tvar exitStatus int\n\tformattedMergeProgram := subprocess.FormatPercentSequences(mergeDriverProgram, fileSpecifiers)\n\tcmd, err := subprocess.ExecCommand(\"sh\", \"-c\", formattedMergeProgram)\n", Repl: "func processFiles(fileSpecifiers map[string]string, program string, outputFile string) (int, error) {\n\tdefer mergeCleanup(fileSpecifiers)\n\n\t// Make sure the file receiving the merge result is there and readable\n\t// before spending time in the merge program.\n\tfilename := fileSpecifiers[\"D\"]\n\tinputFp, err := os.OpenFile(filename, os.O_RDONLY|os.O_CREATE, 0600)\n\tif err != nil {\n\t\treturn -1, err\n\t}\n\tdefer inputFp.Close()\n\n\tvar exitStatus int\n\tformattedMergeProgram := subprocess.FormatPercentSequences(mergeDriverProgram, fileSpecifiers)\n\tcmd, err := subprocess.ExecCommand(\"sh\", \"-c\", formattedMergeProgram)\n"}, {File: "commands/command_merge_driver.go", Find: "\t}\n\tdefer outputFp.Close()\n\n\tfilename := fileSpecifiers[\"D\"]\n\n\tstat, err := os.Stat(filename)\n\tif err != nil {\n\t\treturn -1, err\n\t}\n\n\tinputFp, err := os.OpenFile(filename, os.O_RDONLY|os.O_CREATE, 0600)\n\tif err != nil {\n\t\treturn -1, err\n\t}\n\tdefer inputFp.Close()\n\n\tgf := lfs.NewGitFilter(cfg)\n\t_, err = clean(gf, outputFp, inputFp, filename, stat.Size())\n\tif err != nil {\n", Repl: "\t}\n\tdefer outputFp.Close()\n\n\tstat, err := os.Stat(filename)\n\tif err != nil {\n\t\treturn -1, err\n\t}\n\n\tgf := lfs.NewGitFilter(cfg)\n\t_, err = clean(gf, outputFp, inputFp, filename, stat.Size())\n\tif err != nil {\n"}}},
 	{Name: "r5-storage-under-raw-gitdir", ExpectKey: "C01.R13", Edits: []Edit{{File: "fs/fs.go", Find: "fs.LFSStorageDir = filepath.Join(fs.GitStorageDir, lfsdir)", Repl: "fs.LFSStorageDir = filepath.Join(gitdir, lfsdir)"}}},
 	{Name: "r4-same-size-shortcut", ExpectKey: "C01.R11", Edits: []Edit{{File: "lfs/gitfilter_smudge.go", Find: "\t\tif ptr.Size == 0 && stat.Size() == 0 {", Repl: "\t\tif stat.Size() == ptr.Size {"}}},
